@@ -523,12 +523,14 @@ MODULES['C06'] += ['C06GenCustom']; AUDITS['C06'] += ['C06GenCustom']   # proces
 MODULES['C17'] += ['C17GenSmall', 'C17GenOwnDir']; AUDITS['C17'] += ['C17GenSmall', 'C17GenOwnDir']   # match_defined / match_placeholder_shown / match_scope / match_own_dir translated from the source (gen/gen_py_smallfn.py)
 MODULES['C11'] += ['C11GenAttrSel']; AUDITS['C11'] += ['C11GenAttrSel']; MODULES['C01'] += ['C11GenAttrSel']; AUDITS['C01'] += ['C11GenAttrSel']   # the decisions of parse_attribute_selector translated from the source (gen/gen_py_attrsel.py)
 MODULES['C01'] += ['C01GenAttrs']; AUDITS['C01'] += ['C01GenAttrs']   # match_attributes translated from the source (gen/gen_py_attrs.py)
+MODULES['C01'] += ['C01GenRel']; AUDITS['C01'] += ['C01GenRel']   # match_relations / match_past_relations / match_future_relations / match_future_child / match_subselectors translated from the source (gen/gen_py_relations.py)
 MODULES['C02'] += ['C02GenType']; AUDITS['C02'] += ['C02GenType']   # match_nth_tag_type translated from the source (gen/gen_py_attrs.py)
 MODULES['C13'] += ['C13GenWalk']; AUDITS['C13'] += ['C13GenWalk']   # match_lang: final test, attribute decision and attribute loop of the walk translated from the source (gen/gen_py_langwalk.py)
 MODULES['C02'] += ['C02GenNth', 'C02GenNthTerm']; AUDITS['C02'] += ['C02GenNth']   # the integer bookkeeping of match_nth (init, adjustment loops, main test, advance) translated from the source (gen/gen_py_nth.py)
 MODULES['C06'] += ['C06GenComb']; AUDITS['C06'] += ['C06GenComb']; MODULES['C05'] += ['C06GenComb']; AUDITS['C05'] += ['C06GenComb']   # parse_combinator / parse_has_combinator translated from the source (gen/gen_py_combinators.py)
 MODULES['C09'] += ['C09GenHandlers']; AUDITS['C09'] += ['C09GenHandlers']   # the token handlers parse_tag_pattern / parse_class_id / parse_pseudo_dir / parse_pseudo_lang / parse_pseudo_contains translated from the source (gen/gen_py_handlers.py)
 MODULES['C06'] += ['C06GenPseudoOpen']; AUDITS['C06'] += ['C06GenPseudoOpen']   # the flag computation and frame of parse_pseudo_open translated from the source (gen/gen_py_popen.py)
+MODULES['C06'] += ['C06GenPseudoCustom']; AUDITS['C06'] += ['C06GenPseudoCustom']   # parse_pseudo_class_custom translated from the source as a program (gen/gen_py_pcustom.py)
 # `CxxRx` modules restate the property theorems about the regular expressions REGENERATED from the source
 # (the hand-written scanners are proved equal to the regex-engine model on them in lean/SoupVerif/Refine/).
 
